@@ -4,16 +4,19 @@ Helper lemmas for Props/C16 (nothing panics or hangs), part 2: the environment s
 `Facts.chainEnv`) never reaches a `.panic` of the model on supported field lists (`SupportedCfg`,
 `envValue_noPanic`), and every ingredient of `SupportedCfg` is necessary (the `envValue_panics_*`
 counterexamples evaluate the model to each panic on a field list that violates just that ingredient).
+The two shapes whose panics were repaired in the library (P05: empty `dialsenv` tag; P02: `Elem()` of a
+type without element type) now evaluate to errors and lie inside `SupportedCfg` (`envValue_*_is_error`,
+`repaired_now_supported`).
 
 Where the model's panics live along the chain (and what excludes each under `SupportedCfg`):
-  * env.go: explicit `panic` on an empty `dialsenv` tag      — `envTagsOk` (decidable, on the translated fields)
+  * env.go: empty `dialsenv` tag                              — an error since the repair of P05 (`envField_noPanic`)
   * transformer.go: `layerMangledVal[off : off+len(out)]`     — counts: each layer's values are as many as its
                                                                outputs (`All2` against the layer's output fields)
   * flatten_mangler.go populateStruct: `vs[inputIndex]`       — the leaf types of flattenStruct (`leafTys`) are
                                                                the ones populate walks (`populate_np`, any fuel)
   * flatten_mangler.go populateStruct: `originalVal.Set(ptr)` — every nested struct behind a pointer (`okField`)
-  * string_casting_mangler.go: `sf.Type.Elem()`              — every flattened leaf has an element type or is
-                                                               parsed directly (`leafTyOk`)
+  * string_casting_mangler.go: `sf.Type.Elem()`              — an error since the repair of P02 (guard `hasElemTy`):
+                                                               a leaf without element type is allowed (`leafTyOk`)
   * string_casting_mangler.go: `.(*string)`                   — the values handed over are *string or nil (`IsEnvVal`)
   * transformer.go maybeRecursivelyUnmangle: v.Elem()/Index   — values have the shape of their types (`LeafV` after
                                                                string cast / tag copy / tag reformat: a slice of
@@ -270,13 +273,15 @@ theorem unmangleLayer_spec (fuel : Nat) (m : Mangler) (P Q : FT → Val → Prop
 
 /-! ### leaf types and leaf values (the layers after flatten) -/
 
-/-- a flattened leaf type the string-cast mangler can take the `Elem()` of (or parse directly), and
-that the recursing manglers either skip or (slices of structs) walk element-wise -/
+/-- a flattened leaf type that the recursing manglers either skip or (slices of structs) walk
+element-wise: anything but a struct, a pointer to a struct or an array of structs.  Since the repair of
+P02 the string-cast mangler answers a type without `Elem()` (a scalar, a duration, a text unmarshaler)
+with an error, so such leaf types need no exclusion. -/
 def leafTyOk : Ty → Bool
   | .ptr e => !e.isStructTy
-  | .slice _ | .map _ _ | .set _ => true
   | .array _ e => !e.isStructTy
-  | _ => false
+  | .struct _ => false
+  | _ => true
 
 /-- the values that reach a leaf of this type: for a slice of structs only nil or the empty slice
 (parse.String cannot cast an element to a struct) -/
@@ -560,7 +565,19 @@ theorem stringCast_body (toks : TokTable) (k : Nat) (f : FT) (hokf : leafTyOk f.
         · exact noPanic_ok _
         · exact noPanic_err _
         · next c hc => exact absurd hc (parseString_noPanic _ _ _ c)
-      | _ => simp [leafTyOk] at hokf
+      | struct ifs => simp [leafTyOk] at hokf
+      | basic b n =>
+        simp only [hasElemTy, Bool.not_false, if_true]
+        exact ⟨noPanic_err _, fun r hr => by cases hr⟩
+      | dur =>
+        simp only [hasElemTy, Bool.not_false, if_true]
+        exact ⟨noPanic_err _, fun r hr => by cases hr⟩
+      | pdur =>
+        simp only [hasElemTy, Bool.not_false, if_true]
+        exact ⟨noPanic_err _, fun r hr => by cases hr⟩
+      | tu x =>
+        simp only [hasElemTy, Bool.not_false, if_true]
+        exact ⟨noPanic_err _, fun r hr => by cases hr⟩
 
 theorem stringCast_layer (toks : TokTable) (fuel : Nat) (fs fs' : List FT) (vals : List Val)
     (hm : mangleLayer fuel (stringCastMangler (parseString toks)) fs = .ok fs')
@@ -581,14 +598,16 @@ def okUnder : Ty → Bool
   | .ptr e => okUnder e
   | .struct fs => okFields fs
   | _ => true
-/-- the type of a field as the flatten mangler meets it: (pointers to) a struct only behind a pointer;
-any other type must have an `Elem()` or be parsed directly (nil-able: pointer, slice, map, set; or an
-array), and must not be an array of structs (no value of it survives the recursing manglers) -/
+/-- the type of a field as the flatten mangler meets it: (pointers to) a struct only behind a pointer
+(`populate`'s remaining panic `reflect.Set: *struct into struct`); any other type is fine (scalar,
+duration, text unmarshaler, slice, map, set, array: since the repair of P02 the string-cast mangler
+returns an error for a type without `Elem()`), but it must not be an array of structs (no value of it
+survives the recursing manglers: the `nilv` artefact) -/
 def okField : Ty → Bool
   | .ptr e => okUnder e
-  | .slice _ | .map _ _ | .set _ => true
+  | .struct _ => false
   | .array _ e => !e.isStructTy
-  | _ => false
+  | _ => true
 def okFields : Fields → Bool
   | .nil => true
   | .cons _ _ _ t rest => okField t && okFields rest
@@ -683,11 +702,9 @@ theorem okField_of_leaf {t : Ty} (hs : ∀ ifs, stripPtrs t ≠ .struct ifs) (ho
   | ptr e =>
     have : e.isStructTy = false := not_struct_of_leaf (fun ifs h => hs ifs (by simpa [stripPtrs] using h))
     simp [leafTyOk, this]
-  | slice e => rfl
-  | map a b => rfl
-  | set a => rfl
   | array n e => simpa [okField, leafTyOk] using hok
-  | _ => simp [okField] at hok
+  | struct fs => simp [okField] at hok
+  | _ => rfl
 
 theorem okField_of_top {t : Ty} (hok : okTop t = true) (hn : isNilableTy t = true) : okField t = true := by
   cases t with
@@ -704,10 +721,9 @@ theorem Shaped_of_leaf {t : Ty} {v : Val} (hok : leafTyOk t = true) (hv : LeafV 
     | struct ifs => simp [leafTyOk, Ty.isStructTy] at hok
     | _ => simp [Shaped]
   | slice e => simpa [Shaped, LeafV] using hv
-  | map a b => simp [Shaped]
-  | set a => simp [Shaped]
   | array n e => simpa [Shaped, leafTyOk] using hok
-  | _ => simp [leafTyOk] at hok
+  | struct fs => simp [leafTyOk] at hok
+  | _ => simp [Shaped]
 
 theorem Shaped_wrap {t : Ty} {ifs : Fields} (hs : stripPtrs t = .struct ifs) (hd : ptrDepth t ≠ 0)
     (fvs : List Val) (hf : All2 (fun (f : FT) v => Shaped f.2 v) ifs.toList fvs) :
@@ -1294,46 +1310,57 @@ theorem translate_cons_ok {fuel : Nat} {m : Mangler} {ms : List Mangler} {fs tfs
 
 /-! ### the supported configurations -/
 
-/-- any token table: `translate` does not consult it -/
-def dummyToks : TokTable := fun _ => ([], [])
+/-- The field lists on which the environment source's model cannot panic: `okTop` on every (original,
+Pointerify-output) field type — as the flatten mangler walks a pointer type (through pointers and the
+fields of structs):
+  * every nested struct sits behind a pointer — else `reflect.Set: *struct into struct` in the model's
+    `populate` (populateStruct `originalVal.Set(ptr)`; the model keeps this panic, see
+    `envValue_panics_value_struct`);
+  * no nested field is an array of structs as a bare leaf — else `unexpected value kind in recursive
+    unmangle`: an unset array reaches the recursing manglers as nil (the model's `nilv` artefact, see
+    `envValue_panics_array_of_structs`).
+Every other nested field type is fine: scalar, duration, text unmarshaler, slice, map, set, array of
+non-structs, and pointers to those.  Top-level fields that are not pointers are not constrained: slices /
+maps / sets are leaves, anything else makes `flattenMangle` return an error.
 
-/-- every translated field carries a non-empty `dialsenv` tag (env.go panics otherwise: a field tagged
-`dials:"_"`-like names that reformat to nothing, or an explicit empty `dialsenv:""`) -/
-def envTagsOk (fuel : Nat) (fs : List FT) : Bool :=
-  match translate fuel (envChain fuel dummyToks) fs with
-  | .ok tfs => tfs.all (fun f =>
-      match tagGet f.1.tags "dialsenv" with
-      | some n => n != ""
-      | none => false)
-  | _ => true
+Two ingredients of the earlier predicate are gone, because the panics they excluded became errors:
+  * "every translated field carries a non-empty `dialsenv` tag" (`envTagsOk`): since the repair of finding
+    P05 env.go returns the error `empty dialsenv tag` instead of panicking
+    (`envValue_empty_tag_is_error`, `envValue_empty_envtag_is_error`);
+  * "every nested leaf type has an `Elem()`" (pointer / slice / map / set / array): since the repair of
+    finding P02 the string-cast mangler returns an error for a field type without element type instead
+    of reflect panicking with `Elem of invalid type` (`envValue_unwrapped_leaf_is_error`).
+The `fuel` argument is kept for the signature only.  No fuel bound is needed: with too little fuel the
+model returns the error "fuel", never a panic. -/
+def SupportedCfg (_fuel : Nat) (fs : List FT) : Bool :=
+  fs.all (fun f => okTop f.2)
 
-/-- The field lists on which the environment source's model cannot panic:
-  * `okTop` on every (original, Pointerify-output) field type — as the flatten mangler walks a pointer
-    type (through pointers and the fields of structs): every nested struct sits behind a pointer
-    (else `reflect.Set: *struct into struct` in populateStruct), every other nested field type is a
-    pointer / slice / map / set or an array (else `reflect: Elem of invalid type` in the string-cast
-    mangler), and no nested field is an array of structs (else `unexpected value kind in recursive
-    unmangle`: an unset array reaches the recursing manglers as nil).  Top-level fields that are not
-    pointers are not constrained: slices / maps / sets are leaves, anything else makes `flattenMangle`
-    return an error.
-  * `envTagsOk`: no translated field has a missing or empty `dialsenv` tag (`empty dialsenv tag`).
-No fuel bound is needed: with too little fuel the model returns the error "fuel", never a panic. -/
-def SupportedCfg (fuel : Nat) (fs : List FT) : Bool :=
-  fs.all (fun f => okTop f.2) && envTagsOk fuel fs
-
-theorem envField_ok (pfx : String) (lookup : String → Option String) (f : FT) (n : String)
-    (hg : tagGet f.1.tags "dialsenv" = some n) (hne : n ≠ "") :
-    ∃ v, envField pfx lookup f = .ok v ∧ IsEnvVal v := by
+/-- the lookup step never panics (an empty or missing `dialsenv` tag is an error since the repair of P05) -/
+theorem envField_noPanic (pfx : String) (lookup : String → Option String) (f : FT) :
+    NoPanic (envField pfx lookup f) := by
   unfold envField
   split
-  · next heq => rw [hg] at heq; cases heq
-  · next heq => rw [hg] at heq; injection heq with heq; exact absurd heq hne
-  · next name' _ heq =>
-    simp only
+  · exact noPanic_err _
+  · exact noPanic_err _
+  · simp only
     split
-    · rename_i v _
-      exact ⟨_, rfl, Or.inr ⟨v, rfl⟩⟩
-    · exact ⟨_, rfl, Or.inl rfl⟩
+    · exact noPanic_ok _
+    · exact noPanic_ok _
+
+/-- and what it hands to the chain is nil or a `*string` -/
+theorem envField_isEnvVal (pfx : String) (lookup : String → Option String) (f : FT) (v : Val)
+    (h : envField pfx lookup f = .ok v) : IsEnvVal v := by
+  unfold envField at h
+  split at h
+  · cases h
+  · cases h
+  · simp only at h
+    split at h
+    · rename_i s _
+      cases h
+      exact Or.inr ⟨s, rfl⟩
+    · cases h
+      exact Or.inl rfl
 
 /-- one step of ReverseTranslate's fold -/
 def stepU (fuel : Nat) (l : Mangler × List FT) (acc : Outcome (List Val)) : Outcome (List Val) :=
@@ -1362,38 +1389,21 @@ the scanner returns for it, `Value` returns a value or an error — no panic of 
 theorem envValue_noPanic (fuel : Nat) (toks : TokTable) (pfx : String) (fs : List FT)
     (lookup : String → Option String) (h : SupportedCfg fuel fs = true) :
     NoPanic (envValue fuel (envChain fuel toks) pfx fs lookup) := by
-  simp only [SupportedCfg, Bool.and_eq_true, List.all_eq_true] at h
-  obtain ⟨hshape, htag⟩ := h
+  simp only [SupportedCfg, List.all_eq_true] at h
+  have hshape : ∀ f ∈ fs, okTop f.2 = true := h
   rw [envValue_eq]
   cases ht : translate fuel (envChain fuel toks) fs with
   | err c => exact noPanic_err c
   | panic c => exact absurd ht (translate_noPanic fuel _ (envChain_total fuel toks) fs c)
   | ok tfs =>
     simp only
-    have htags : ∀ f ∈ tfs, ∃ n, tagGet f.1.tags "dialsenv" = some n ∧ n ≠ "" := by
-      intro f hf
-      simp only [envTagsOk, ← translate_toks fuel toks dummyToks fs, ht, List.all_eq_true] at htag
-      have := htag f hf
-      split at this
-      · rename_i n hn
-        exact ⟨n, hn, by simpa using this⟩
-      · cases this
     cases hvals : mapM' (envField pfx lookup) tfs with
     | err c => exact noPanic_err c
-    | panic c =>
-      refine absurd hvals (mapM'_noPanic _ tfs (fun f hf => ?_) c)
-      obtain ⟨n, hn, hne⟩ := htags f hf
-      obtain ⟨v, hv, _⟩ := envField_ok pfx lookup f n hn hne
-      exact noPanic_of_ok hv
+    | panic c => exact absurd hvals (mapM'_noPanic _ tfs (fun f _ => envField_noPanic pfx lookup f) c)
     | ok vals =>
       simp only
-      have hev : All2 (fun (_ : FT) v => IsEnvVal v) tfs vals := All2_of_mapM' hvals (by
-        intro f hf b hb
-        obtain ⟨n, hn, hne⟩ := htags f hf
-        obtain ⟨v, hv, hiv⟩ := envField_ok pfx lookup f n hn hne
-        rw [hv] at hb
-        cases hb
-        exact hiv)
+      have hev : All2 (fun (_ : FT) v => IsEnvVal v) tfs vals :=
+        All2_of_mapM' hvals (fun f _ b hb => envField_isEnvVal pfx lookup f b hb)
       rw [envChain_eq] at ht ⊢
       obtain ⟨L1, h0, ht⟩ := translate_cons_ok ht
       obtain ⟨L2, h1, ht⟩ := translate_cons_ok ht
@@ -1568,7 +1578,17 @@ theorem eq_panic_of_class {α : Type} {o : Outcome α} {c : String} (h : panicCl
   | ok a => cases h
   | err e => cases h
 
-/-! ### the model's panics are reachable outside `SupportedCfg` -/
+def errClass {α : Type} : Outcome α → Option String
+  | .err c => some c
+  | _ => none
+
+theorem eq_err_of_class {α : Type} {o : Outcome α} {c : String} (h : errClass o = some c) : o = .err c := by
+  cases o with
+  | err c' => simp [errClass] at h; rw [h]
+  | ok a => cases h
+  | panic e => cases h
+
+/-! ### the model's panics are reachable outside `SupportedCfg`; the repaired shapes are errors inside it -/
 
 def cxToks : TokTable := fun _ => ([Parse.Tok.scanErr], [Parse.Tok.scanErr])
 def cxInt : Ty := .basic (.int .int) false
@@ -1578,14 +1598,15 @@ def cxValueStruct : List FT :=
   [(⟨"P", [], false⟩, .ptr (.struct (Fields.ofList
     [(⟨"X", [], false⟩, .struct (Fields.ofList [(⟨"A", [], false⟩, .ptr cxInt)]))])))]
 
-/-- `P **struct{ A int }`: a scalar field Pointerify did not wrap (it stops at the user's pointer) -/
+/-- `P **struct{ A int }`: a scalar field Pointerify did not wrap (it stops at the user's pointer); an
+error since the repair of P02, and supported -/
 def cxUnwrappedLeaf : List FT :=
   [(⟨"P", [], false⟩, .ptr (.ptr (.struct (Fields.ofList [(⟨"A", [], false⟩, cxInt)]))))]
 
-/-- `A *int` tagged `dials:"_"`: the reformatted tag is empty -/
+/-- `A *int` tagged `dials:"_"`: the reformatted tag is empty (an error since the repair of P05) -/
 def cxEmptyTag : List FT := [(⟨"A", [("dials", "_")], false⟩, .ptr cxInt)]
 
-/-- `A *int` tagged `dialsenv:""` -/
+/-- `A *int` tagged `dialsenv:""` (an error since the repair of P05) -/
 def cxEmptyEnvTag : List FT := [(⟨"A", [("dialsenv", "")], false⟩, .ptr cxInt)]
 
 /-- `P **struct{ R [2]struct{ A *int } }`: an array of structs as a flattened leaf -/
@@ -1602,25 +1623,28 @@ theorem envValue_panics_value_struct :
   decide
 
 set_option maxRecDepth 100000 in
-theorem envValue_panics_unwrapped_leaf :
+/-- since the repair of P02 the string-cast mangler answers a field type without element type with an
+error (before: `.panic "reflect: Elem of invalid type"`) -/
+theorem envValue_unwrapped_leaf_is_error :
     envValue 64 (envChain 64 cxToks) "" cxUnwrappedLeaf (fun s => if s = "P_A" then some "1" else none) =
-      .panic "reflect: Elem of invalid type" := by
+      .err "cannot cast a string to a field that is not a pointer, slice or map" := by
   rw [envChainK_eq]
-  apply eq_panic_of_class
+  apply eq_err_of_class
   decide
 
 set_option maxRecDepth 100000 in
-theorem envValue_panics_empty_tag (lookup : String → Option String) :
-    envValue 64 (envChain 64 cxToks) "" cxEmptyTag lookup = .panic "empty dialsenv tag" := by
+/-- since the repair of P05 an empty `dialsenv` tag is an error (before: `.panic "empty dialsenv tag"`) -/
+theorem envValue_empty_tag_is_error (lookup : String → Option String) :
+    envValue 64 (envChain 64 cxToks) "" cxEmptyTag lookup = .err "empty dialsenv tag" := by
   rw [envChainK_eq]
-  apply eq_panic_of_class
+  apply eq_err_of_class
   rfl
 
 set_option maxRecDepth 100000 in
-theorem envValue_panics_empty_envtag (lookup : String → Option String) :
-    envValue 64 (envChain 64 cxToks) "" cxEmptyEnvTag lookup = .panic "empty dialsenv tag" := by
+theorem envValue_empty_envtag_is_error (lookup : String → Option String) :
+    envValue 64 (envChain 64 cxToks) "" cxEmptyEnvTag lookup = .err "empty dialsenv tag" := by
   rw [envChainK_eq]
-  apply eq_panic_of_class
+  apply eq_err_of_class
   rfl
 
 set_option maxRecDepth 100000 in
@@ -1633,9 +1657,13 @@ theorem envValue_panics_array_of_structs :
   decide
 
 theorem counterexamples_unsupported :
-    SupportedCfg 64 cxValueStruct = false ∧ SupportedCfg 64 cxUnwrappedLeaf = false ∧
-    SupportedCfg 64 cxEmptyTag = false ∧ SupportedCfg 64 cxEmptyEnvTag = false ∧
-    SupportedCfg 64 cxArrayOfStructs = false := by
+    SupportedCfg 64 cxValueStruct = false ∧ SupportedCfg 64 cxArrayOfStructs = false := by
+  decide
+
+/-- the shapes whose panics were repaired into errors are inside the supported set -/
+theorem repaired_now_supported :
+    SupportedCfg 64 cxUnwrappedLeaf = true ∧ SupportedCfg 64 cxEmptyTag = true ∧
+    SupportedCfg 64 cxEmptyEnvTag = true := by
   decide
 
 /-! ### non-vacuity -/
@@ -1665,5 +1693,10 @@ example : (envValue 200 (envChain 200 cxToks) "" okCfg
   rw [envChainK_eq]
   decide
 
+set_option maxRecDepth 100000 in
+/-- a nested leaf without element type (`P **struct{ A int }`) with nothing set: a value, not an error -/
+example : (envValue 64 (envChain 64 cxToks) "" cxUnwrappedLeaf (fun _ => none)).isOk = true := by
+  rw [envChainK_eq]
+  decide
 
 end Dials.Total
